@@ -12,6 +12,8 @@ structure St where
   maxSize : Nat := 0
   items : List RingEntry := []       -- the model's ring
   implItems : List (Nat × Nat) := [] -- the implementation's ring (hash, ep) as it printed it
+  bal : BalState := {}
+  hashTab : List (String × Array Nat) := []
   prevKey : String := ""             -- canonical text of the previous endpoint set + bounds
   prevItems : String := ""
 
@@ -152,6 +154,26 @@ def step : Step St := fun s fs impl =>
       let key := s!"{minSize} {maxSize} " ++ " ".intercalate (eps.map fun e => s!"{e.hashKey}:{e.weight}")
       ({ eps := eps, minSize := minSize, maxSize := maxSize, items := items, implItems := implItems,
          prevKey := key, prevItems := showItems implItems }, out, verdict)
+    | _, _, _ => (s, "bad-op", "-")
+  | ["bal", minS, maxS, epsS] =>
+    match minS.toNat?, maxS.toNat?, (epsS.splitOn ",").mapM parseEp with
+    | some minSize, some maxSize, some parsed =>
+      let eps := sortByKey (parsed.map (·.1))
+      -- entry hashes: the generator's independent xxhash of "<key>_<idx>" (sent with the first update of a case)
+      let known := ((parsed.filter (fun p => p.2.size > 0)).map fun p => (p.1.hashKey, p.2)) ++ s.hashTab
+      let tables : Array (Array Nat) := (eps.map fun e => ((known.find? (·.1 = e.hashKey)).map (·.2)).getD #[]).toArray
+      let counts := ringCounts (α := Float) eps minSize maxSize
+      let hashOf := fun k j => (tables.getD k #[]).getD j 0
+      let fresh := sortByHash (entriesOf hashOf counts 0)
+      let bal' := balUpdate s.bal eps minSize maxSize fresh
+      let short := bal'.ring.any (·.hash = 0)
+      let out := if short then "hash-table-too-short" else
+        s!"n={bal'.ring.length} counts={showNatList ((List.range eps.length).map fun k => (bal'.ring.filter (·.ep = k)).length)} items={showItems (bal'.ring.map fun e => (e.hash, e.ep))}"
+      -- the property on the ring the real balancer now holds: bounds of the CURRENT config, sorted, proportional
+      let verdict := monRing { s with prevKey := "" } eps minSize maxSize impl (out == impl)
+      let implItems := (kv impl "items" >>= parseItems).getD []
+      ({ s with eps := eps, minSize := minSize, maxSize := maxSize, items := bal'.ring, implItems := implItems,
+                bal := bal', hashTab := known, prevKey := "" }, out, verdict)
     | _, _, _ => (s, "bad-op", "-")
   | ["pick", hS] =>
     match hS.toNat? with
